@@ -432,3 +432,140 @@ func TestVerifStress(t *testing.T) {
 		}
 	}
 }
+
+// TestVerifWrappers: the exported wrappers on unknown / released handles return
+// their defaults and change nothing; on live handles they report what the
+// library computes, and every object they create is released again so that the
+// live-object counts return to their starting values.
+func TestVerifWrappers(t *testing.T) {
+	if os.Getenv("VERIF_C20_WRAP") == "" {
+		t.Skip("VERIF_C20_WRAP not set")
+	}
+	len0s, len0q := sFrameSets.Len(), sFileSeqs.Len()
+	wantFS := []string{"String=", "Len=0", "Index=-1", "Frame=0", "FrameErr=true", "Frames=[]", "HasFrame=false", "Start=0", "End=0",
+		"FrameRange=", "FrameRangePadded=", "InvertedFrameRange=", "CopyIsZero=true", "InvertIsZero=true", "NormalizeIsZero=true"}
+	wantQ := []string{"Format=", "FormatErr=false", "Dirname=", "Basename=", "Ext=", "Start=0", "End=0", "ZFill=0", "Padding=",
+		fmt.Sprintf("PaddingStyle=%d", int(fileseq.PadStyleDefault)), "FrameRange=", "FrameRangePadded=", "InvertedFrameRange=",
+		"InvertedFrameRangePadded=", "FrameInt=", "FrameFill=", "Index=", "Len=0", "String=", "FrameSetIsZero=true", "CopyIsZero=true"}
+	wantM := []string{"SetFrameRangeErr=false", "SetFrameSet=false", "String="}
+	same := func(a, b []string) bool { return strings.Join(a, "\x00") == strings.Join(b, "\x00") }
+
+	// released handles
+	relS, _ := verifNewFrameSet("1-10")
+	relQ, _ := verifNewFileSeq("/a/foo.1-10#.exr", 1)
+	liveS, _ := verifNewFrameSet("5-7")
+	FrameSet_Decref(relS)
+	FileSequence_Decref(relQ)
+	for _, id := range []uint64{0, 12345, uint64(relS), uint64(relQ), ^uint64(0)} {
+		got, created := verifProbeFrameSet(FrameSetId(id), 3, 1, 4)
+		if !same(got, wantFS) || len(created) != 0 {
+			t.Fatalf("FrameSet wrappers on the unknown handle %d: got %q, want %q", id, got, wantFS)
+		}
+		gq, cq, cs := verifProbeFileSeq(FileSeqId(id), 3, 1, "0003", "{{dir}}{{base}}")
+		if !same(gq, wantQ) || len(cq) != 0 || len(cs) != 0 {
+			t.Fatalf("FileSequence wrappers on the unknown handle %d: got %q, want %q", id, gq, wantQ)
+		}
+		gm := verifMutateFileSeq(FileSeqId(id), liveS, "/d", "b", ".e", "@@", "1-3", 0)
+		if !same(gm, wantM) {
+			t.Fatalf("FileSequence setters on the unknown handle %d: got %q, want %q", id, gm, wantM)
+		}
+		FrameSet_Incref(FrameSetId(id))
+		FrameSet_Decref(FrameSetId(id))
+		FileSequence_Incref(FileSeqId(id))
+		FileSequence_Decref(FileSeqId(id))
+		if sFrameSets.Len() != len0s+1 || sFileSeqs.Len() != len0q {
+			t.Fatalf("operations on the unknown handle %d changed the live counts: %d/%d", id, sFrameSets.Len(), sFileSeqs.Len())
+		}
+	}
+	// a live sequence and an unknown frame set: SetFrameSet must refuse and change nothing
+	q0, _ := verifNewFileSeq("/a/foo.1-10#.exr", 1)
+	if gm := verifMutateFileSeq(q0, 12345, "/a/", "foo.", ".exr", "#", "1-10", 1); !same(gm, []string{"SetFrameRangeErr=false", "SetFrameSet=false", "String=/a/foo.1-10#.exr"}) {
+		t.Fatalf("SetFrameSet with an unknown frame set: %q", gm)
+	}
+	FileSequence_Decref(q0)
+	FrameSet_Decref(liveS)
+
+	// live handles: the wrappers report what the library computes
+	for _, rs := range []string{"1-10", "10-1x3", "1-5,8,20-30x5", "-5--1", "7", "1-12y3", "4-20:5"} {
+		fs, err := fileseq.NewFrameSet(rs)
+		if err != nil {
+			t.Fatal(err)
+		}
+		id, e := verifNewFrameSet(rs)
+		if id == 0 || e != "<nil>" {
+			t.Fatalf("FrameSet_New(%q) = %d, %q", rs, id, e)
+		}
+		for _, probe := range [][3]int{{3, 1, 4}, {-5, 0, 1}, {100, 99, 0}} {
+			frame, index, pad := probe[0], probe[1], probe[2]
+			fr, ferr := fs.Frame(index)
+			if ferr != nil {
+				fr = 0
+			}
+			want := []string{"String=" + fs.String(), fmt.Sprintf("Len=%d", fs.Len()), fmt.Sprintf("Index=%d", fs.Index(frame)),
+				fmt.Sprintf("Frame=%d", fr), fmt.Sprintf("FrameErr=%v", ferr != nil), fmt.Sprintf("Frames=%v", fs.Frames()),
+				fmt.Sprintf("HasFrame=%v", fs.HasFrame(frame)), fmt.Sprintf("Start=%d", fs.Start()), fmt.Sprintf("End=%d", fs.End()),
+				"FrameRange=" + fs.FrameRange(), "FrameRangePadded=" + fs.FrameRangePadded(pad), "InvertedFrameRange=" + fs.InvertedFrameRange(pad),
+				"CopyIsZero=false", "CopyRange=" + fs.FrameRange(), "InvertIsZero=false", "InvertRange=" + fs.Invert().FrameRange(),
+				"NormalizeIsZero=false", "NormalizeRange=" + fs.Normalize().FrameRange()}
+			got, created := verifProbeFrameSet(id, frame, index, pad)
+			if !same(got, want) {
+				t.Fatalf("FrameSet wrappers on %q (frame %d index %d pad %d): got %q, want %q", rs, frame, index, pad, got, want)
+			}
+			for _, c := range created {
+				FrameSet_Decref(c)
+			}
+		}
+		FrameSet_Decref(id)
+	}
+	for _, c := range []struct {
+		s     string
+		style int
+	}{{"/a/foo.1-10#.exr", 1}, {"/a/foo.1-10#.exr", 0}, {"bar_5-20x5@@@.tar.gz", 1}, {"/x/single.0007.jpg", 1}, {"/x/noframe.txt", 1}, {"/a/b.1-3,7%03d.e", 1}} {
+		q, err := fileseq.NewFileSequencePad(c.s, fileseq.PadStyle(c.style))
+		if err != nil {
+			t.Fatal(err)
+		}
+		id, e := verifNewFileSeq(c.s, c.style)
+		if id == 0 || e != "<nil>" {
+			t.Fatalf("FileSequence_New_Pad(%q) = %d, %q", c.s, id, e)
+		}
+		frame, index, fill, tpl := 7, 1, "0007", "{{dir}}|{{base}}|{{frange}}|{{pad}}|{{ext}}"
+		fmtd, _ := q.Format(tpl)
+		fi, _ := q.Frame(frame)
+		ff, _ := q.Frame(fill)
+		want := []string{"Format=" + fmtd, "FormatErr=false", "Dirname=" + q.Dirname(), "Basename=" + q.Basename(), "Ext=" + q.Ext(),
+			fmt.Sprintf("Start=%d", q.Start()), fmt.Sprintf("End=%d", q.End()), fmt.Sprintf("ZFill=%d", q.ZFill()), "Padding=" + q.Padding(),
+			fmt.Sprintf("PaddingStyle=%d", int(q.PaddingStyle())), "FrameRange=" + q.FrameRange(), "FrameRangePadded=" + q.FrameRangePadded(),
+			"InvertedFrameRange=" + q.InvertedFrameRange(), "InvertedFrameRangePadded=" + q.InvertedFrameRangePadded(),
+			"FrameInt=" + fi, "FrameFill=" + ff, "Index=" + q.Index(index), fmt.Sprintf("Len=%d", q.Len()), "String=" + q.String()}
+		if q.FrameSet() == nil {
+			want = append(want, "FrameSetIsZero=true")
+		} else {
+			want = append(want, "FrameSetIsZero=false", "FrameSetRange="+q.FrameSet().FrameRange())
+		}
+		got, cq, cs := verifProbeFileSeq(id, frame, index, fill, tpl)
+		// the copy made by the wrapper is compared separately (it re-parses the string)
+		if len(got) < 2 || !same(got[:len(got)-2], want) {
+			t.Fatalf("FileSequence wrappers on %q style %d: got %q, want %q", c.s, c.style, got, want)
+		}
+		for _, x := range cq {
+			FileSequence_Decref(x)
+		}
+		for _, x := range cs {
+			FrameSet_Decref(x)
+		}
+		q.SetDirname("/d")
+		q.SetBasename("b")
+		q.SetExt(".e")
+		q.SetPadding("@@")
+		q.SetPaddingStyle(fileseq.PadStyle(1))
+		rerr := q.SetFrameRange("1-3")
+		if gm := verifMutateFileSeq(id, 12345, "/d", "b", ".e", "@@", "1-3", 1); !same(gm, []string{fmt.Sprintf("SetFrameRangeErr=%v", rerr != nil), "SetFrameSet=false", "String=" + q.String()}) {
+			t.Fatalf("FileSequence setters on %q: got %q, library gives %q", c.s, gm, q.String())
+		}
+		FileSequence_Decref(id)
+	}
+	if sFrameSets.Len() != len0s || sFileSeqs.Len() != len0q {
+		t.Fatalf("live-object counts did not return to their starting values: %d/%d vs %d/%d", sFrameSets.Len(), sFileSeqs.Len(), len0s, len0q)
+	}
+}
